@@ -134,10 +134,22 @@ class SimQueue:
     def __init__(self, maxsize=0):
         self.queue = collections.deque()
         self.maxsize = maxsize
+        self._room = object()     # producers blocked on a full bounded queue wait on this
 
     def put(self, item, block=True, timeout=None):
         sim = S.SIM
         sim.yield_()
+        if self.maxsize and self.maxsize > 0 and len(self.queue) >= self.maxsize:
+            # bounded queue: the producer waits for room (queue.Full when it may not wait / the wait times out)
+            if not block:
+                raise _rq.Full
+            deadline = None if timeout is None else sim.now + timeout
+            while len(self.queue) >= self.maxsize:
+                rem = None if deadline is None else deadline - sim.now
+                if rem is not None and rem <= 0:
+                    raise _rq.Full
+                sim.count("queue.put_blocked")
+                sim.block(self._room, rem)
         self.queue.append(item)
         if type(item) is str and item.startswith("Evt"):
             # the provider's event queue: which state-machine event was queued when, and by which thread
@@ -157,7 +169,10 @@ class SimQueue:
                 if rem is not None and rem <= 0:
                     raise _rq.Empty
                 sim.block(self, rem)
-        return self.queue.popleft()
+        item = self.queue.popleft()
+        if self.maxsize and self.maxsize > 0:
+            sim.wake(self._room, 1)
+        return item
 
     def empty(self):
         return not self.queue
